@@ -24,6 +24,7 @@ import os
 import random
 import shutil
 import tempfile
+import threading
 
 from .. import core
 from .. import staticlib as sl
@@ -44,9 +45,12 @@ def _clean_cwd():
 
 
 def has_tuple_variant(els):
+    """The tree has an alternative spelling (tuple / bare branch of a Split, Source whose callable
+    follows leading SetContext / StoreContext elements)."""
     par = sl.parents(els)
-    return any(e["k"] == "seq" and n in par and els[par[n] - 1]["k"] == "split"
-               and not any(els[c - 1]["k"] == "split" for c in e["ch"])
+    return any((e["k"] == "seq" and n in par and els[par[n] - 1]["k"] == "split"
+                and not any(els[c - 1]["k"] == "split" for c in e["ch"]))
+               or (e["k"] == "src" and e["ch"] and els[e["ch"][0] - 1]["k"] in ("set", "store"))
                for n, e in enumerate(els, 1))
 
 
@@ -92,7 +96,7 @@ def replay(ctx, recs, stats):
 
 
 # ---------------------------------------------------------------------------- C2S
-KEYS = (["ka"], ["kb"], ["kc"], ["kd", "ke"], ["kd", "kf"], ["output", "kx"])
+KEYS = (["ka"], ["kb"], ["kc"], ["kd", "ke"], ["kd", "kf"], ["output", "kx"], ["rt"])
 
 
 def _lit(ch):
@@ -121,6 +125,10 @@ CONSUMERS = [
     ("mf", _fmt(_fld(["kc"]))),
     ("mf", _fmt(_fld(["kd", "ke"]), _lit("x"))),
     ("mf", _fmt(_fld(["output", "kx"]))),
+    ("mf", _fmt(_fld(["rt"]))),
+    ("mfd", _fmt(_fld(["ka"]))),
+    ("mfe", _fmt(_fld(["kb"]), _lit("x"))),
+    ("write", _fmt(_lit("d"))),
     ("write", _fmt(_fld(["ka"]))),
     ("write", _fmt(_fld(["kb"]), _lit("_"), _fld(["kd", "ke"]))),
     ("cache", _fmt(_fld(["kc"]), _lit(".pkl"))),
@@ -132,8 +140,15 @@ def random_leaf(rnd, keys=KEYS):
     r = rnd.random()
     if r < 0.30:
         p = rnd.choice(keys)
-        if rnd.random() < 0.12:
+        q = rnd.random()
+        if q < 0.10:
             return {"k": "set", "p": ["ka"], "v": {"t": "str", "toks": [_lit("1")]}, "ch": []}
+        if q < 0.14:      # values that look like nothing
+            return {"k": "set", "p": list(p), "v": {"t": "int", "toks": [_lit("0")]}, "ch": []}
+        if q < 0.18:
+            return {"k": "set", "p": list(p), "v": {"t": "str", "toks": []}, "ch": []}
+        if q < 0.22:
+            return {"k": "set", "p": list(p), "v": {"t": "none", "toks": [_lit("None")]}, "ch": []}
         return {"k": "set", "p": list(p), "v": {"t": "int", "toks": [_lit(rnd.choice("12"))]}, "ch": []}
     if r < 0.42:
         p, v = rnd.choice(FMT_VALUES)
@@ -309,61 +324,88 @@ def run(ctx):
         shutil.rmtree(ctx.workdir, ignore_errors=True)
 
 
+class Background(object):
+    """The design-level TLC runs (many workers) go on in a thread while the main thread exports
+    (one worker) and replays; a failure there is re-raised by join()."""
+
+    def __init__(self, jobs):
+        self.exc = None
+        self.thread = threading.Thread(target=self._work, args=(jobs,))
+        self.thread.daemon = True
+        self.thread.start()
+
+    def _work(self, jobs):
+        try:
+            for job in jobs:
+                job()
+        except BaseException as exc:    # noqa  (MachineryError included)
+            self.exc = exc
+
+    def join(self):
+        self.thread.join()
+        if self.exc is not None:
+            raise self.exc
+
+
 def _run(ctx):
     tag = "thorough" if ctx.thorough else "quick"
-    ctx.assume("keys ka kb kc kd.ke; values 1, 2, '1' and formatting strings made of one-character "
-               "literals; formatting fields never name a dictionary-valued key")
+    ctx.assume("keys ka kb kc kd.ke kd.kf output.kx rt; values 0, 1, 2, 5, '1', '', None and formatting strings "
+               "made of one-character literals; formatting fields never name a dictionary-valued key")
     ctx.assume("empty nested dictionaries are removed before contexts are compared")
     ctx.assume("after the first unresolved formatting key (document order) nothing is compared except "
                "that _get_context raises LenaKeyError naming a key that is unresolvable below that node")
     ctx.assume("a Split branch that is a bare fill/compute element: three readings accepted (ignored and "
                "{} if no other branch; ignored and transparent; counts with the copy it was handed)")
     stats = {"observations": 0, "policy_trees": 0, "policies_matched": collections.Counter(),
-             "other_key_named": 0, "c2s_rejected": 0, "c2s_unvalidated": 0}
-    # ---- design level
-    cfgs = ["StaticContext_%s_a.cfg" % tag, "StaticContext_%s_b.cfg" % tag]
+             "other_key_named": 0, "c2s_rejected": 0, "c2s_unvalidated": 0, "trees_by_family": collections.Counter()}
+    # ---- design level (background thread): vacuity guard with -coverage on the 3-token family
+    # (coverage slows TLC several times), all families of the tier without it, defect models
+    def covered():
+        res = ctx.mc("StaticContext", "StaticContext_cov.cfg", coverage=True, workers=2)
+        for names in (("Open", "OpenAny"), ("Place", "PlaceAny"), ("Close",), ("UseRoot",)):
+            if not any(res.coverage.get(n, 0) for n in names):
+                raise core.MachineryError("vacuous model: action %s never taken" % names[0])
+
+    jobs = [covered,
+            lambda: ctx.mc("StaticContext", "StaticContext_%s.cfg" % tag),
+            lambda: demo_defect_models(ctx)]
     if ctx.thorough:
-        cfgs.append("StaticContext_thorough_c.cfg")      # nested keys, 7 tokens
-    for j, cfg in enumerate(cfgs):
-        ctx.mc("StaticContext", cfg, coverage=(j == 0), must_cover=ACTIONS if j == 0 else ())
-    if ctx.thorough:
-        # formatting values at 6 tokens (design level only) and random walks to 8 tokens
-        ctx.mc("StaticContext", "StaticContext_thorough_d.cfg")
-        ctx.mc("StaticContext", "StaticContext_sim.cfg", simulate=5000, depth=24)
-    demo_defect_models(ctx)
-    # ---- spec -> code
+        jobs.append(lambda: ctx.mc("StaticContext", "StaticContext_sim.cfg", simulate=5000, depth=24))
+    bg = Background(jobs)
+    # ---- spec -> code (main thread)
     cwd = os.getcwd()
     scratch = os.path.join(ctx.workdir, "cwd")
     os.makedirs(scratch)
     os.chdir(scratch)
     try:
-        ntrees = 0
-        # focused alphabets, deeper: checked (all invariants) and exported in one single-worker run
-        focus = ["StaticContext_focus1.cfg", "StaticContext_focus2.cfg", "StaticContext_focus3.cfg"]
-        if ctx.thorough:
-            focus.append("StaticContext_focus2_deep.cfg")
-        for cfg in focus:
-            recs = ctx.export("StaticContext", cfg, min_records=100)
-            ntrees += replay(ctx, recs, stats)
-        for cfg in cfgs:
-            recs = ctx.export("StaticContext", cfg.replace(".cfg", "_export.cfg"), min_records=1000)
-            ntrees += replay(ctx, recs, stats)
-            ctx.sample({"spec_behaviour": _brief(recs[len(recs) * 2 // 3])})
+        exports = (["StaticContext_thorough_export_%s.cfg" % f for f in "FABC"] if ctx.thorough
+                   else ["StaticContext_quick_export.cfg"])
+        for cfg in exports:
+            recs = ctx.export("StaticContext", cfg, min_records=1000)
+            for r in recs:
+                stats["trees_by_family"][r["fam"]] += 1
+            replay(ctx, recs, stats)
+            ctx.sample({"spec_behaviour": _brief(recs[len(recs) * 2 // 3])}, limit=3)
+            del recs
         # ---- code -> spec
         accepted = c2s(ctx, 6000 if ctx.thorough else 300, 14 if ctx.thorough else 10, stats)
     finally:
         os.chdir(cwd)
     if accepted:
         ctx.binding_demo("Trace_StaticContext", "Trace_StaticContext.cfg", accepted, corrupt, limit=60)
+    bg.join()
     stats["policies_matched"] = dict(stats["policies_matched"])
+    stats["trees_by_family"] = dict(stats["trees_by_family"])
     ctx.extra["c13"] = stats
     return ctx.finish(
-        rule="S2C: every finished tree of the bounded machine (quick: <= 4 tokens over 11 leaf kinds with "
-             "every root kind, <= 5 tokens over 5 leaf kinds, focused alphabets to 6 tokens; thorough: <= 5 / "
-             "<= 6 / <= 7 tokens), built from the real classes (Split branches as Sequence and as tuple), every "
-             "consumer / sequence observable compared before and after two values are run through the root, "
-             "and the run-time contexts compared; non-trivial = more than one object; C2S: seeded random "
-             "trees (<= 10 / 14 tokens, depth <= 3, 22 leaf kinds) validated by Trace_StaticContext",
+        rule="S2C: every finished tree of every family of the bounded machine (quick: A4 = <= 4 tokens over 11 "
+             "leaf kinds and every root kind, B5 = <= 5 tokens over 4 leaf kinds, focused families F1..F4 with "
+             "4-6 tokens; thorough: A5, B6, C7 and the focused families one token deeper), built from the real "
+             "classes in both spellings (Split branches as Sequence / tuple / bare element, Source callable first "
+             "/ after leading SetContext), every consumer / sequence observable compared before and after two "
+             "values are run through the root, run-time contexts compared; non-trivial = more than one object; "
+             "C2S: seeded random trees (<= 10 / 14 tokens, depth <= 3, 30 leaf kinds) validated by "
+             "Trace_StaticContext",
         exhaustive=True)
 
 
